@@ -7,3 +7,4 @@ pub mod printer;
 pub mod strings;
 pub mod schema;
 pub mod linecol;
+pub mod coerce;
